@@ -134,8 +134,9 @@ def check(tier):
         bat = battery(work)
         bpath = os.path.join(work, "battery.json")
         json.dump(bat, open(bpath, "w"))
-        jobs = [("sched", s, bpath, work, i) for i, s in enumerate(sel)]
-        jobs += [("hist", h, bpath, work, i) for i, h in enumerate(hists)]
+        hists.sort(key=len)                       # single-converter runs first: they define memo[cc]
+        jobs = [("hist", h, bpath, work, i) for i, h in enumerate(hists)]
+        jobs += [("sched", s, bpath, work, i) for i, s in enumerate(sel)]
         jobs += [("stress", 16, bpath, work, i) for i in range(stress_runs)]
         with cf.ThreadPoolExecutor(max_workers=common.NCPU) as ex:
             runs = list(ex.map(child, jobs))
